@@ -31,22 +31,43 @@ theorem mem_targets (reg : Decl) (path s m : Bytes) :
   · rintro ⟨⟨ms, hmem, hm⟩, hp⟩
     exact ⟨(s, ms), hmem, m, ⟨hm, hp.symm⟩, rfl⟩
 
-/-- The observable part of one exchange: which handler ran (if any) and the response's
-grpc-status (if any). -/
+/-- The observable part of one exchange: which handler ran (if any), the response's grpc-status
+(if any), its HTTP status and whether its content-type is `application/grpc`. -/
 structure Obs where
   handler : Option (Bytes × Bytes)
   status : Option Nat
+  http : Nat
+  grpcContentType : Bool
 deriving DecidableEq, Repr
 
-/-- The property as a decidable predicate on an observation (service names distinct):
-a path that names a declared method runs exactly that handler; any other path runs no handler
-and is answered with grpc-status 12. -/
-def allowed (reg : Decl) (path : Bytes) (o : Obs) : Bool :=
+/-- First half of the property: a path that names a declared method runs exactly that handler;
+any other path runs no handler. -/
+def handlerOk (reg : Decl) (path : Bytes) (o : Obs) : Bool :=
   match targets reg path with
-  | [] => o.handler.isNone && o.status == some 12
+  | [] => o.handler.isNone
   | ts => match o.handler with
     | some h => ts.contains h
     | none => false
+
+/-- Second half: the answer is a gRPC answer (HTTP 200, `application/grpc`) whose grpc-status is
+the handler's own (`hs`) where a handler had to run, and UNIMPLEMENTED (12) for every other
+path. -/
+def answerOk (reg : Decl) (path : Bytes) (hs : Nat) (o : Obs) : Bool :=
+  o.http == 200 && o.grpcContentType &&
+  (match targets reg path with
+   | [] => o.status == some 12
+   | _ => o.status == some hs)
+
+/-- The property as a decidable predicate on an observation (service names distinct; `hs` is
+the grpc-status the registered handlers themselves answer with). -/
+def allowed (reg : Decl) (path : Bytes) (hs : Nat) (o : Obs) : Bool :=
+  handlerOk reg path o && answerOk reg path hs o
+
+/-- The path lies strictly below the prefix `"/" S "/"` of a registered service `S` (used only to
+delimit the one excluded case: a user-supplied `axum::Router` with its own fallback legitimately
+answers the paths that are below no registered service). -/
+def underService (reg : Decl) (path : Bytes) : Bool :=
+  reg.any (fun sm => ([47] ++ sm.1 ++ [47]).isPrefixOf path && decide (sm.1.length + 2 < path.length))
 
 /-- Distinct service names ("any *set* of services"). -/
 def distinctNames (reg : Decl) : Prop := (reg.map Prod.fst).Nodup
